@@ -17,11 +17,12 @@ cd "$wt" || exit 2
 git checkout -q -- . ; rm -f mla/tests/seeded_demo_confirm.rs mlar/tests/seeded_demo_confirm.rs
 demo_dir=${DEMO_DIR:-mla/tests}
 if [ -z "${DEMO_DIR:-}" ]; then
-  grep -q "assert_cmd\|cargo_bin" "$out/demo.rs" 2>/dev/null && demo_dir=mlar/tests
-  if grep -q "curve25519_parser" "$out/demo.rs" 2>/dev/null && ! grep -q "mla::" "$out/demo.rs" 2>/dev/null; then demo_dir=curve25519-parser/tests; fi
+  if grep -q "assert_cmd\|cargo_bin" "$out/demo.rs" 2>/dev/null; then demo_dir=mlar/tests
+  elif grep -q "curve25519_parser" "$out/demo.rs" 2>/dev/null && ! grep -q "mla::" "$out/demo.rs" 2>/dev/null; then demo_dir=curve25519-parser/tests; fi
 fi
 pkg=$(echo $demo_dir | cut -d/ -f1)
 [ "$pkg" = "curve25519-parser" ] || true
+mkdir -p $demo_dir
 cp "$out/demo.rs" $demo_dir/seeded_demo_confirm.rs
 log="$out/confirm.log"; : > "$log"
 echo "### demo WITHOUT the change" >> "$log"
